@@ -142,11 +142,11 @@ class AppGen:
             if r.random() < 0.5:
                 f["min"], f["max"] = r.choice([(f2bits(-10.0), f2bits(10.0)), (f2bits(0.0), f2bits(1.0)), (f2bits(-0.5), f2bits(4.0))])
         elif kind == "O":
-            k = r.randint(2, 4)
+            k = r.choice(self.shape["optcounts"]) if self.shape.get("optcounts") else r.randint(2, 4)
             f["opts"] = self.fresh_names(k)
             f["ostyle"] = r.choice(["sym", "int"])
         elif kind == "Z":
-            f["len"] = r.choice([4, 8, 16])
+            f["len"] = r.choice(self.shape.get("strlens", [4, 8, 16]))
         elif kind == "C":
             f["cstyle"] = r.choice(["int", "int", "char"])
         f["dflt"] = ("K", self.rand_val(kind, f))
@@ -160,12 +160,28 @@ class AppGen:
         nparams = r.randint(sh["minp"], sh["maxp"])
         narr = r.randint(0, sh["maxarr"])
         nsub = r.randint(sh["minsub"], sh["maxsub"]) if depth < sh["depth"] else 0
-        names = self.fresh_names(nparams + narr + nsub + 3)
+        nchain = sh.get("chain", 0) if depth == 0 else 0
+        neleaf = r.randint(0, sh["eleaf"]) if sh.get("eleaf") else 0
+        names = self.fresh_names(nparams + narr + nsub + 3 + nchain + 3 * neleaf + (6 if sh.get("leafen") else 0))
+        used = []
+
+        def nm():
+            """next field name; with `prefixnames`, sometimes an existing name of the class extended by a few letters
+            (a sibling whose name starts like another's: what Ports::apropos' lowest loop confuses)"""
+            if sh.get("prefixnames") and used and r.random() < sh["prefixnames"]:
+                for _ in range(8):
+                    x = r.choice(used) + r.choice(["x", "mod", "a", "rand"])
+                    if x not in used and x not in names:
+                        used.append(x)
+                        return x
+            x = names.pop()
+            used.append(x)
+            return x
         kinds = ["I", "I", "C", "F", "T", "O", "Z", "O", "I", "T", "F"]
         params = []
         for i in range(nparams):
             k = kinds[i % len(kinds)] if depth == 0 and sh.get("allkinds") else r.choice(kinds)
-            params.append(self.gen_param(names.pop(), k))
+            params.append(self.gen_param(nm(), k))
         # preset / depends edges: each parameter gets at most one data parent; parents are
         # int/option parameters declared anywhere in the class; no cycles
         cands = [p for p in params if p["kind"] in ("I", "O")]
@@ -239,12 +255,73 @@ class AppGen:
                 k = r.randint(6, min(8, len(others)))
                 chosen = others[-k:]
                 p["deps"] = [d for d in p["deps"] if d not in [q["name"] for q in chosen]] + [q["name"] for q in chosen]
+        if nchain:
+            # a chain of preset-dependent defaults (each port's default is selected by the previous one): the scan has to
+            # look through every run of ports that are absent from the file
+            prev = None
+            for i in range(nchain):
+                q = self.gen_param(nm(), "O" if i % 3 == 1 else "I")
+                if q["kind"] == "I":
+                    q["min"], q["max"] = 0, 3
+                    q["dflt"] = ("K", ("i", r.randint(0, 3)))
+                if prev is not None:
+                    keys = self.preset_keys(prev)
+                    tbl = {k: self.rand_val(q["kind"], q) for k in keys if r.random() < 0.9}
+                    q["parent"] = prev["name"]
+                    q["dflt"] = ("P", prev["name"], tbl, q["dflt"][1], "sparse")
+                params.append(q)
+                prev = q
+        if sh.get("longdeps2") and len(params) >= 14:
+            # rDepends lists of 12..16 entries (the upper rows of the MAC_EACH_n table)
+            def lpar2(q):
+                s_ = set(q["deps"])
+                if q["dflt"][0] == "P":
+                    s_.add(q["dflt"][1])
+                return s_
+
+            def closure2(q):
+                seen_ = set()
+                todo_ = list(lpar2(q))
+                while todo_:
+                    y = todo_.pop()
+                    if y in seen_:
+                        continue
+                    seen_.add(y)
+                    todo_.extend(lpar2(c_field(y)))
+                return seen_
+            tgt = [q for q in params if not any(q["name"] in closure2(o) for o in params)]
+            r.shuffle(tgt)
+            for p in tgt[:2]:
+                others = [q for q in params if q is not p and p["name"] not in closure2(q)]
+                r.shuffle(others)
+                others.sort(key=lambda q: len(closure2(q)) > 0)
+                if len(others) < 12:
+                    continue
+                k = r.randint(12, min(16, len(others)))
+                chosen = others[-k:]
+                p["deps"] = [d for d in p["deps"] if d not in [q["name"] for q in chosen]] + [q["name"] for q in chosen]
+        if sh.get("leafen"):
+            # rEnabledBy on a parameter itself (not only on sub-trees): while its toggle is off the parameter keeps its
+            # (constant) default and ignores writes
+            togs = [p for p in params if p["kind"] == "T" and p["dflt"][0] == "K" and not p["deps"]]
+            for p in list(params):
+                if p["dflt"][0] != "K" or p["deps"] or r.random() > sh["leafen"]:
+                    continue
+                cand = [t for t in togs if t is not p and not t.get("en")]
+                if not cand or r.random() < 0.3:
+                    t = self.gen_param(nm(), "T")
+                    params.append(t)
+                    togs.append(t)
+                    cand = [t]
+                p["en"] = r.choice(cand)["name"]
         for p in params:
             c.fields.append(p)
         for i in range(narr):
             ek = r.choice(["I", "I", "F", "T"])
             n = r.randint(5, 9) if sh.get("bigarr") else r.randint(2, 5)
-            f = {"name": names.pop(), "role": "array", "ekind": ek, "n": n, "min": None, "max": None}
+            if sh.get("arrlens"):
+                n = r.randint(*sh["arrlens"])
+            f = {"name": nm(), "role": "array", "ekind": ek, "n": n, "min": None, "max": None}
             if ek == "I":
                 if r.random() < 0.5:
                     f["min"], f["max"] = r.choice([(-100, 100), (0, 100), (-5, 5)])
@@ -255,15 +332,76 @@ class AppGen:
                 f["dflts"] = [fval(r.choice(DYADIC)) for _ in range(n)]
             else:
                 f["dflts"] = [bval(r.random() < 0.5) for _ in range(n)]
+            if sh.get("arrstyles"):
+                # defaults the way applications spell them: repetitions `6x7`, ranges `1 ... 5`, and per-preset arrays
+                def shaped(base):
+                    shp = r.choice(["rand", "const", "lead", "arith", "runs"])
+                    if shp == "rand":
+                        return list(base)
+                    if shp == "const":
+                        return [base[0]] * n
+                    if shp == "lead":
+                        k = r.randint(1, max(1, n // 2))
+                        return list(base[:k]) + [base[k % n]] * (n - k)
+                    if shp == "runs":
+                        out_ = []
+                        while len(out_) < n:
+                            out_ += [base[len(out_)]] * r.randint(1, 4)
+                        return out_[:n]
+                    if ek == "I":
+                        st = r.choice([1, 1, -1, 2])
+                        lo_ = f["min"] if f["min"] is not None else -128
+                        hi_ = f["max"] if f["max"] is not None else 127
+                        a_lo, a_hi = (lo_, hi_ - st * (n - 1)) if st > 0 else (lo_ - st * (n - 1), hi_)
+                        if a_lo <= a_hi:
+                            a0 = r.randint(a_lo, a_hi)
+                            return [("i", a0 + st * k) for k in range(n)]
+                    return list(base)
+
+                def rnd_base():
+                    if ek == "I":
+                        lo_ = f["min"] if f["min"] is not None else -128
+                        hi_ = f["max"] if f["max"] is not None else 127
+                        return [("i", r.randint(lo_, hi_)) for _ in range(n)]
+                    if ek == "F":
+                        return [fval(r.choice(DYADIC)) for _ in range(n)]
+                    return [bval(r.random() < 0.5) for _ in range(n)]
+                f["dflts"] = shaped(f["dflts"])
+                f["dstyle"] = r.choice(["plain", "rep", "rep", "range"])
+                pc = [p for p in params if p["kind"] in ("I", "O") and not p.get("en")]
+                if pc and r.random() < 0.4:
+                    par = r.choice(pc)
+                    tbl = {k: shaped(rnd_base()) for k in self.preset_keys(par) if r.random() < 0.7}
+                    f["pdflt"] = (par["name"], tbl)
+            c.fields.insert(r.randint(0, len(c.fields)), f)
+        for i in range(neleaf):
+            # one Port per leaf with the enumeration inside its name ("v#3/en::T:F"): saved one line per element
+            f = {"name": nm(), "role": "eleaf", "n": r.randint(2, 4), "leaves": []}
+            for j in range(r.randint(1, 2)):
+                ek = r.choice(["T", "I", "F"])
+                lf = {"name": nm(), "kind": ek, "deps": [], "min": None, "max": None}
+                if ek == "I":
+                    lf["dflts"] = [("i", r.randint(-1000, 1000))] * f["n"] if r.random() < 0.5 else [("i", r.randint(-1000, 1000)) for _ in range(f["n"])]
+                elif ek == "F":
+                    lf["dflts"] = [fval(r.choice(DYADIC)) for _ in range(f["n"])]
+                else:
+                    lf["dflts"] = [bval(r.random() < 0.5) for _ in range(f["n"])]
+                lf["dstyle"] = r.choice(["plain", "rep"])
+                f["leaves"].append(lf)
             c.fields.insert(r.randint(0, len(c.fields)), f)
         toggles = [p for p in params if p["kind"] == "T"]
         for i in range(nsub):
             modes = ["emb", "embs", "ptr", "ptrs", "embg"] if guards_allowed else ["emb", "embs"]
             mode = r.choice(modes)
-            f = {"name": names.pop(), "role": "sub", "mode": mode, "n": r.randint(2, 3), "en": None}
+            f = {"name": nm(), "role": "sub", "mode": mode, "n": r.randint(2, 3), "en": None}
+            if sh.get("subdeps") and r.random() < sh["subdeps"]:
+                # a sub-tree that is re-initialised when a port of its parent changes: rRecur(sub, rDepends(port))
+                pc = [p for p in params if p["kind"] in ("I", "O", "C", "F")]
+                if pc:
+                    f["sdeps"] = [p["name"] for p in r.sample(pc, min(len(pc), r.choice([1, 1, 2])))]
             if mode in ("ptr", "ptrs", "embg"):
                 if not toggles or r.random() < 0.5:
-                    t = self.gen_param(names.pop(), "T")
+                    t = self.gen_param(nm(), "T")
                     params.append(t)
                     toggles.append(t)
                     c.fields.insert(r.randint(0, len(c.fields)), t)
@@ -274,6 +412,8 @@ class AppGen:
             else:
                 f["cls"] = self.gen_class(depth + 1, guards_allowed=guards_allowed)
             c.fields.insert(r.randint(0, len(c.fields)), f)
+        if sh.get("prefixnames"):
+            r.shuffle(c.fields)          # the longer of two names may stand first in the table
         return c
 
     def preset_keys(self, par):
@@ -297,9 +437,10 @@ def flatten(root):
     insts = []
     walk = []
 
-    def rec(cls, prefix, guards, local):
-        # local: name -> instance index, for this class instance
+    def rec(cls, prefix, guards, extra):
+        # extra: instances (of outer classes) whose change re-initialises this sub-tree (rDepends on a sub-tree port)
         here = {}
+        mine = []
         for f in cls.fields:
             if f["role"] == "param":
                 it = Inst()
@@ -309,8 +450,13 @@ def flatten(root):
                 it.guards = list(guards)
                 it.local = here
                 it.arr = None
+                it.extra = list(extra)
                 here[f["name"]] = len(insts)
                 insts.append(it)
+                mine.append(it)
+        for it in mine:
+            if it.f.get("en"):
+                it.guards.append((here[it.f["en"]], False))
         for f in cls.fields:
             if f["role"] == "param":
                 walk.append(("s", here[f["name"]]))
@@ -324,28 +470,47 @@ def flatten(root):
                     it.guards = list(guards)
                     it.local = here
                     it.arr = k
+                    it.extra = list(extra)
                     insts.append(it)
                 walk.append(("a", prefix + f["name"], first, f["n"]))
+            elif f["role"] == "eleaf":
+                for lf in f["leaves"]:
+                    for k in range(f["n"]):
+                        it = Inst()
+                        it.addr = "%s%s%d/%s" % (prefix, f["name"], k, lf["name"])
+                        # element k of the port's array default is this instance's constant default
+                        it.f = {"name": lf["name"], "role": "param", "kind": lf["kind"], "deps": [], "min": None, "max": None,
+                                "dflt": ("K", lf["dflts"][k])}
+                        it.kind = lf["kind"]
+                        it.guards = list(guards)
+                        it.local = here
+                        it.arr = None
+                        it.extra = list(extra)
+                        walk.append(("s", len(insts)))
+                        insts.append(it)
             else:
                 g = list(guards)
                 if f["en"]:
                     g.append((here[f["en"]], f["mode"] in ("ptr", "ptrs")))
+                ex = list(extra) + [here[d] for d in f.get("sdeps", [])]
                 if f["mode"] in ("emb", "ptr"):
-                    rec(f["cls"], prefix + f["name"] + "/", g, None)
+                    rec(f["cls"], prefix + f["name"] + "/", g, ex)
                 else:
                     for k in range(f["n"]):
-                        rec(f["cls"], prefix + f["name"] + str(k) + "/", g, None)
-    rec(root, "/", [], None)
+                        rec(f["cls"], prefix + f["name"] + str(k) + "/", g, ex)
+    rec(root, "/", [], [])
     # parents and ancestors
     for i, it in enumerate(insts):
         it.idx = i
-        par = set(g[0] for g in it.guards)
+        par = set(g[0] for g in it.guards) | set(it.extra)
         f = it.f
         if it.arr is None:
             if f["dflt"][0] == "P":
                 par.add(it.local[f["dflt"][1]])
             for d in f["deps"]:
                 par.add(it.local[d])
+        elif f.get("pdflt"):
+            par.add(it.local[f["pdflt"][0]])
         it.parents = par
     for it in insts:
         seen = set()
@@ -357,7 +522,7 @@ def flatten(root):
             seen.add(x)
             todo.extend(insts[x].parents)
         it.ancs = seen
-    # rank order: ancestors first, stable
+    # rank order: ancestors first, stable; the elements of an array stay consecutive (they have the same ancestors)
     order = []
     done = set()
 
@@ -396,6 +561,10 @@ def declared_default(it, getv):
     current values of the other instances"""
     f = it.f
     if it.arr is not None:
+        if f.get("pdflt"):
+            pv = getv(it.local[f["pdflt"][0]])
+            vals = f["pdflt"][1].get(pv[1], f["dflts"]) if pv[0] in ("i", "c") else f["dflts"]
+            return vals[it.arr]
         return f["dflts"][it.arr]
     d = f["dflt"]
     if d[0] == "K":
@@ -481,7 +650,11 @@ def descriptor(app):
     for old in order:
         it = insts[old]
         f = it.f
-        if it.arr is not None:
+        if it.arr is not None and f.get("pdflt"):
+            pn, tbl = f["pdflt"]
+            d = "P%d:%s:%s" % (rank[it.local[pn]], "/".join("%d=%s" % (k, vtok(tbl[k][it.arr])) for k in sorted(tbl)),
+                               vtok(f["dflts"][it.arr]))
+        elif it.arr is not None:
             d = "K" + vtok(f["dflts"][it.arr])
         elif f["dflt"][0] == "K":
             d = "K" + vtok(declared_text_val(it, f["dflt"][1]))
@@ -511,17 +684,28 @@ def descriptor(app):
                     meta[1] = "".join(d + "," for d in f["deps"]).encode().hex()
                 if f["dflt"][0] == "P":
                     meta[2] = f["dflt"][1].encode().hex()
+                if f.get("en"):
+                    meta[0] = f["en"].encode().hex()
                 ts.append("%d,%s,%s" % (depth, port_name(f).encode().hex(), ",".join(meta)))
             elif f["role"] == "array":
-                ts.append("%d,%s,-,-,-" % (depth, port_name(f).encode().hex()))
+                dd = f["pdflt"][0].encode().hex() if f.get("pdflt") else "-"
+                ts.append("%d,%s,-,-,%s" % (depth, port_name(f).encode().hex(), dd))
+            elif f["role"] == "eleaf":
+                for lf in f["leaves"]:
+                    ts.append("%d,%s,-,-,-" % (depth, eleaf_port_name(f, lf).encode().hex()))
             else:
                 en = f["en"].encode().hex() if f["en"] else "-"
-                ts.append("%d,%s,%s,-,-" % (depth, port_name(f).encode().hex(), en))
+                sd = "".join(d + "," for d in f["sdeps"]).encode().hex() if f.get("sdeps") else "-"
+                ts.append("%d,%s,%s,%s,-" % (depth, port_name(f).encode().hex(), en, sd))
                 tree(f["cls"], depth + 1)
                 if f["mode"] == "emb":
                     ts.append("%d,%s,-,-,-" % (depth, (f["name"] + ":").encode().hex()))
     tree(app.root, 0)
     return "|".join([app.appid, ";".join(ps), ";".join(ws), ";".join(ts)])
+
+
+def eleaf_port_name(f, lf):
+    return "%s#%d/%s%s" % (f["name"], f["n"], lf["name"], {"I": "::i", "F": "::f", "T": "::T:F"}[lf["kind"]])
 
 
 def port_name(f):
@@ -587,6 +771,39 @@ def macro_default(it_kind, f):
     return out
 
 
+def arr_text(vals, style):
+    """an array default as the metadata spells it: element by element, with repetitions `NxV`, or with ranges `a b ... c`"""
+    n = len(vals)
+    out = []
+    i = 0
+    while i < n:
+        j = i
+        while j + 1 < n and vals[j + 1] == vals[i]:
+            j += 1
+        run = j - i + 1
+        if style == "rep" and run >= 2:
+            out.append("%dx%s" % (run, ctext(vals[i])))
+            i = j + 1
+            continue
+        if style == "range" and vals[i][0] == "i":
+            # longest arithmetic progression from i with step +-1 (written `a ... c`) or another step (`a b ... c`)
+            if i + 1 < n:
+                st = vals[i + 1][1] - vals[i][1]
+                k = i + 1
+                while k + 1 < n and vals[k + 1][1] - vals[k][1] == st:
+                    k += 1
+                if st != 0 and k - i + 1 >= 3:
+                    if st == 1:
+                        out.append("%d ... %d" % (vals[i][1], vals[k][1]))
+                    else:
+                        out.append("%d %d ... %d" % (vals[i][1], vals[i + 1][1], vals[k][1]))
+                    i = k + 1
+                    continue
+        out.append(ctext(vals[i]))
+        i += 1
+    return "[" + " ".join(out) + "]"
+
+
 def gen_class_cxx(cls, out, app):
     for f in cls.fields:
         if f["role"] == "sub":
@@ -601,8 +818,13 @@ def gen_class_cxx(cls, out, app):
                 L.append("    char %s[%d];" % (f["name"], f["len"]))
             else:
                 L.append("    %s %s;" % (CTYPE[f["kind"]], f["name"]))
+            if f["kind"] == "T":
+                L.append("    bool prev_%s;" % f["name"])      # the value the change hook saw last
         elif f["role"] == "array":
             L.append("    %s %s[%d];" % ({"I": "int", "F": "float", "T": "bool"}[f["ekind"]], f["name"], f["n"]))
+        elif f["role"] == "eleaf":
+            for lf in f["leaves"]:
+                L.append("    %s %s_%s[%d];" % ({"I": "int", "F": "float", "T": "bool"}[lf["kind"]], f["name"], lf["name"], f["n"]))
         else:
             sc = f["cls"].cname
             if f["mode"] == "emb":
@@ -631,13 +853,18 @@ def gen_class_cxx(cls, out, app):
     L.append("    }")
     L.append("    %s(const %s&) = delete;" % (cn, cn))
     L.append("    %s& operator=(const %s&) = delete;" % (cn, cn))
-    # local dependency order of the parameters
+    # local dependency order of the parameters (and of the arrays with preset-dependent defaults)
     params = [f for f in cls.fields if f["role"] == "param"]
+    nodes = [f for f in cls.fields if f["role"] in ("param", "array")]
 
     def lparents(f):
+        if f["role"] == "array":
+            return set([f["pdflt"][0]]) if f.get("pdflt") else set()
         s = set(f["deps"])
         if f["dflt"][0] == "P":
             s.add(f["dflt"][1])
+        if f.get("en"):
+            s.add(f["en"])
         return s
     lorder = []
     seen = set()
@@ -649,7 +876,7 @@ def gen_class_cxx(cls, out, app):
             visit(cls.field(pn))
         seen.add(f["name"])
         lorder.append(f)
-    for f in params:
+    for f in nodes:
         visit(f)
 
     def ldesc(f):
@@ -670,11 +897,37 @@ def gen_class_cxx(cls, out, app):
 
     def assign_default(f, ind):
         # f := its default given the current values of its parents
-        d = f["dflt"]
         res = []
+        if f["role"] == "array":
+            def assign_all(vals, ind2):
+                return ["%s%s[%d] = %s;" % (ind2, f["name"], k, cxx_val(None, v)) for k, v in enumerate(vals)]
+            if f.get("pdflt"):
+                pn, tbl = f["pdflt"]
+                res.append("%sswitch((int)%s) {" % (ind, pn))
+                for key in sorted(tbl):
+                    res.append("%s    case %d:" % (ind, key))
+                    res.extend(assign_all(tbl[key], ind + "        "))
+                    res.append("%s        break;" % ind)
+                res.append("%s    default:" % ind)
+                res.extend(assign_all(f["dflts"], ind + "        "))
+                res.append("%s        break;" % ind)
+                res.append("%s}" % ind)
+            else:
+                res.extend(assign_all(f["dflts"], ind))
+            return res
+        d = f["dflt"]
         if f["kind"] == "Z":
             res.append("%sstrcpy(%s, %s);" % (ind, f["name"], cxx_str(d[1][1])))
             return res
+        if f["kind"] == "T":
+            res = assign_default_plain(f, ind)
+            res.append("%sprev_%s = %s;" % (ind, f["name"], f["name"]))
+            return res
+        return assign_default_plain(f, ind)
+
+    def assign_default_plain(f, ind):
+        d = f["dflt"]
+        res = []
         if d[0] == "K":
             res.append("%s%s = %s;" % (ind, f["name"], cxx_val(f["kind"], canonicalize(f["kind"], f, d[1]))))
         else:
@@ -701,14 +954,32 @@ def gen_class_cxx(cls, out, app):
                     res.append("%sfor(int k = 0; k < %d; ++k) { delete %s[k]; %s[k] = %s ? new %s : nullptr; }" % (
                         ind, s["n"], s["name"], s["name"], f["name"], sc))
         return res
+    def reinit_subs(g, ind):
+        """sub-trees declared rDepends(g): re-initialised when g changes"""
+        res = []
+        for s_ in cls.fields:
+            if s_["role"] == "sub" and g["name"] in s_.get("sdeps", []):
+                sc = s_["cls"].cname
+                cond = s_["en"] if s_["en"] else "true"
+                if s_["mode"] == "emb":
+                    res.append("%s%s.reset();" % (ind, s_["name"]))
+                elif s_["mode"] == "embs":
+                    res.append("%sfor(int k = 0; k < %d; ++k) %s[k].reset();" % (ind, s_["n"], s_["name"]))
+                elif s_["mode"] == "ptr":
+                    res.append("%sdelete %s; %s = %s ? new %s : nullptr;" % (ind, s_["name"], s_["name"], cond, sc))
+                else:
+                    res.append("%sfor(int k = 0; k < %d; ++k) { delete %s[k]; %s[k] = %s ? new %s : nullptr; }" % (
+                        ind, s_["n"], s_["name"], s_["name"], cond, sc))
+        return res
     # reset(): fresh state
     L.append("    void reset() {")
     for f in lorder:
         L.extend(assign_default(f, "        "))
     for f in cls.fields:
-        if f["role"] == "array":
-            for k, v in enumerate(f["dflts"]):
-                L.append("        %s[%d] = %s;" % (f["name"], k, cxx_val(None, v)))
+        if f["role"] == "eleaf":
+            for lf in f["leaves"]:
+                for k, v in enumerate(lf["dflts"]):
+                    L.append("        %s_%s[%d] = %s;" % (f["name"], lf["name"], k, cxx_val(None, v)))
     for f in cls.fields:
         if f["role"] == "sub":
             if f["en"]:
@@ -729,10 +1000,23 @@ def gen_class_cxx(cls, out, app):
         for g in ds:
             body.extend(assign_default(g, "            "))
         for g in [f] + ds:
-            if g["kind"] == "T":
+            if g["role"] == "param" and g["kind"] == "T":
                 body.extend(recreate_subs(g, "            "))
-        if body:
+        for g in [f] + ds:
+            if g["role"] == "param":
+                body.extend(reinit_subs(g, "            "))
+        if body or f.get("en"):
             L.append("        if(!strncmp(n, \"%s:\", %d)) {" % (f["name"], len(f["name"]) + 1))
+            if f.get("en"):
+                # written while disabled: the parameter keeps its default
+                L.append("            if(!%s) {" % f["en"])
+                L.extend(assign_default(f, "                "))
+                L.append("                return;")
+                L.append("            }")
+            if f["kind"] == "T":
+                # the hook reacts to changes only, however often the callback invokes it
+                L.append("            if(%s == prev_%s) return;" % (f["name"], f["name"]))
+                L.append("            prev_%s = %s;" % (f["name"], f["name"]))
             L.extend(body)
             L.append("            return;")
             L.append("        }")
@@ -743,10 +1027,14 @@ def gen_class_cxx(cls, out, app):
     for f in cls.fields:
         n = f["name"]
         if f["role"] == "param":
-            L.append("        out.push_back(pre + \"%s=\" + %s);" % (n, dump_expr(f["kind"], n)))
+            L.append("        %sout.push_back(pre + \"%s=\" + %s);" % (("if(%s) " % f["en"]) if f.get("en") else "", n, dump_expr(f["kind"], n)))
         elif f["role"] == "array":
             L.append("        for(int k = 0; k < %d; ++k) out.push_back(pre + \"%s\" + std::to_string(k) + \"=\" + %s);" % (
                 f["n"], n, dump_expr({"I": "I", "F": "F", "T": "T"}[f["ekind"]], n + "[k]")))
+        elif f["role"] == "eleaf":
+            for lf in f["leaves"]:
+                L.append("        for(int k = 0; k < %d; ++k) out.push_back(pre + \"%s\" + std::to_string(k) + \"/%s=\" + %s);" % (
+                    f["n"], n, lf["name"], dump_expr(lf["kind"], "%s_%s[k]" % (n, lf["name"]))))
         else:
             en = f["en"]
             cond = en if en else "true"
@@ -775,6 +1063,8 @@ def gen_class_cxx(cls, out, app):
         if f["role"] == "param":
             k = f["kind"]
             dep = (" rDepends(%s)," % ", ".join(f["deps"])) if f["deps"] else ""
+            if f.get("en"):
+                dep += " rEnabledBy(%s)," % f["en"]
             if k == "I":
                 L.append("    rParamI(%s,%s%s%s \"d\")," % (n, macro_range(f, False), macro_default(k, f), dep))
             elif k == "C":
@@ -789,10 +1079,28 @@ def gen_class_cxx(cls, out, app):
                 L.append("    rString(%s, %d,%s%s \"d\")," % (n, f["len"], macro_default(k, f), dep))
         elif f["role"] == "array":
             mac = {"I": "rArrayI", "F": "rArrayF", "T": "rArrayT"}[f["ekind"]]
-            dtext = "[" + " ".join(ctext(v) for v in f["dflts"]) + "]"
-            L.append("    %s(%s, %d,%s rDefault(%s), \"d\")," % (mac, n, f["n"], macro_range(f, f["ekind"] == "F") if f["ekind"] != "T" else "", dtext))
+            dtext = arr_text(f["dflts"], f.get("dstyle", "plain"))
+            pre_ = ""
+            if f.get("pdflt"):
+                pre_ = " rDefaultDepends(%s)," % f["pdflt"][0]
+                for key in sorted(f["pdflt"][1]):
+                    pre_ += " rPreset(%d, %s)," % (key, arr_text(f["pdflt"][1][key], f.get("dstyle", "plain")))
+            L.append("    %s(%s, %d,%s%s rDefault(%s), \"d\")," % (mac, n, f["n"], macro_range(f, f["ekind"] == "F") if f["ekind"] != "T" else "", pre_, dtext))
+        elif f["role"] == "eleaf":
+            for lf in f["leaves"]:
+                var = "obj->%s_%s[idx]" % (n, lf["name"])
+                if lf["kind"] == "T":
+                    rd, wr = "data.reply(loc, %s ? \"T\" : \"F\");" % var, "%s = rtosc_argument(msg, 0).T;" % var
+                elif lf["kind"] == "I":
+                    rd, wr = "data.reply(loc, \"i\", %s);" % var, "%s = rtosc_argument(msg, 0).i;" % var
+                else:
+                    rd, wr = "data.reply(loc, \"f\", %s);" % var, "%s = rtosc_argument(msg, 0).f;" % var
+                L.append("    {\"%s\", rProp(parameter) rDefault(%s) rDoc(\"d\"), NULL," % (eleaf_port_name(f, lf), arr_text(lf["dflts"], lf.get("dstyle", "plain"))))
+                L.append("        rBOILS_BEGIN if(!strcmp(\"\", args)) %s else %s rBOILS_END}," % (rd, wr))
         else:
             en = (" rEnabledBy(%s)," % f["en"]) if f["en"] else ""
+            if f.get("sdeps"):
+                en += " rDepends(%s)," % ", ".join(f["sdeps"])
             sc = f["cls"].cname
             if f["mode"] == "emb":
                 L.append("    rRecur(%s,%s \"d\")," % (n, en))
@@ -803,7 +1111,8 @@ def gen_class_cxx(cls, out, app):
             else:
                 # rRecursp dereferences a NULL element; applications with optional elements
                 # write the same callback with the NULL test of rRecurpCb
-                L.append("    {\"%s#%d/\", %s rDoc(\"d\"), &%s::ports," % (n, f["n"], ("rEnabledBy(%s)" % f["en"]) if f["en"] else "", sc))
+                L.append("    {\"%s#%d/\", %s%s rDoc(\"d\"), &%s::ports," % (n, f["n"], ("rEnabledBy(%s)" % f["en"]) if f["en"] else "",
+                                                                              (" rDepends(%s)" % ", ".join(f["sdeps"])) if f.get("sdeps") else "", sc))
                 L.append("        rBOILS_BEGIN data.obj = obj->%s[idx]; if(obj->%s[idx] == NULL) return; SNIP %s::ports.dispatch(msg, data); rBOILS_END}," % (n, n, sc))
     L.append("};")
     L.append("#undef rChangeCb")
@@ -846,6 +1155,18 @@ SHAPES = [
     # rDepends lists of 6..8 entries
     (107, dict(minp=10, maxp=12, maxarr=3, minsub=0, maxsub=0, depth=0, pdep=0.7, allkinds=True, bigarr=True, longdeps=True)),
     (108, dict(minp=8, maxp=9, maxarr=2, minsub=1, maxsub=2, depth=1, pdep=0.6, bigarr=True, longdeps=True)),
+    # added after the white-box reviews of C12/C13:
+    # A8  wide table: rDepends lists / rOptions / rPresets of 12..16 entries, arrays of 10..14 elements with defaults spelled
+    #     as repetitions / ranges / per preset, strings of a few hundred characters
+    (109, dict(minp=18, maxp=20, maxarr=4, minsub=0, maxsub=0, depth=0, pdep=0.5, allkinds=True, longdeps2=True,
+               optcounts=[2, 3, 12, 13, 16], strlens=[8, 300, 400], arrlens=(10, 14), arrstyles=True)),
+    # A9  a chain of seven preset-dependent defaults, rEnabledBy on parameters, sub-trees with rDepends, ports with the
+    #     enumeration inside their name (v#3/en), sibling names that extend each other
+    (110, dict(minp=4, maxp=6, maxarr=2, minsub=2, maxsub=3, depth=1, pdep=0.5, chain=7, leafen=0.4, subdeps=0.7, eleaf=2,
+               prefixnames=0.35, arrstyles=True, arrlens=(3, 11))),
+    # A10 the same constructs two levels deep
+    (111, dict(minp=3, maxp=5, maxarr=1, minsub=1, maxsub=2, depth=2, pdep=0.6, leafen=0.35, subdeps=0.6, eleaf=1,
+               prefixnames=0.3, arrstyles=True)),
 ]
 
 _POOL = None
